@@ -43,6 +43,8 @@ func newAgentEnv(base string, id int, sleepMs int) *agentEnv {
 	y := fmt.Sprintf(`logDir: %s
 histRetentionDays: 7
 handlerOn:
+  success:
+    command: sh -c "echo success:$DAG_REQUEST_ID >> %s"
   exit:
     command: sh -c "echo exit:$DAG_REQUEST_ID >> %s"
 steps:
@@ -51,7 +53,7 @@ steps:
   - name: s2
     command: sh -c "sleep %s; echo s2:$DAG_REQUEST_ID >> %s"
     depends: [s1]
-`, e.logs, e.marker, e.marker, fmt.Sprintf("%.3f", float64(sleepMs)/1000), e.marker)
+`, e.logs, e.marker, e.marker, e.marker, fmt.Sprintf("%.3f", float64(sleepMs)/1000), e.marker)
 	os.WriteFile(e.file, []byte(y), 0o644)
 	e.env = []string{"HOME=" + e.base, "PATH=" + os.Getenv("PATH"), "TZ=UTC",
 		"BLACKDAGGER_DAGS_DIR=" + e.dags, "BLACKDAGGER_DATA_DIR=" + e.data, "BLACKDAGGER_LOG_DIR=" + e.logs,
@@ -128,9 +130,9 @@ func AgentKillSweep(bin string, base string, every int, emit func(Ev)) error {
 		e.cleanup()
 		return err
 	}
-	if len(e.markerLines()) != 3 {
+	if len(e.markerLines()) != 4 {
 		e.cleanup()
-		return fmt.Errorf("the control run of the real binary did not execute its 3 commands: %v (calls %d)", e.markerLines(), len(lst.Calls))
+		return fmt.Errorf("the control run of the real binary did not execute its 4 commands: %v (calls %d)", e.markerLines(), len(lst.Calls))
 	}
 	e.cleanup()
 	// index of the last write to the history file of the run = the final status
@@ -166,7 +168,7 @@ func AgentKillSweep(bin string, base string, every int, emit func(Ev)) error {
 		status2, lerr2 := e.latest()
 		newReqs := 0
 		for r, steps := range after {
-			if _, ok := before[r]; !ok && len(steps) == 3 {
+			if _, ok := before[r]; !ok && len(steps) == 4 {
 				newReqs++
 			}
 		}
@@ -179,7 +181,7 @@ func AgentKillSweep(bin string, base string, every int, emit func(Ev)) error {
 		// every run (the agent's delayed "running" record may or may not be written, before or after the final one)
 		workDone := false
 		for _, steps := range before {
-			if len(steps) == 3 {
+			if len(steps) == 4 {
 				workDone = true
 			}
 		}
